@@ -69,6 +69,47 @@ def lvl(t):
     return 6
 
 
+def parens(h, l, r):
+    """(left operand parenthesised?, right operand parenthesised?, shortcut taken?) by the printer"""
+    p = 4 + PPREC[h]
+    shortcut_ok = (h in ASSOC and not isinstance(r, str) and len(r) == 3 and r[0] == h and prec(r[1]) != p)
+    if h == "<" and ends_member(l):
+        return True, prec(r) >= p, False
+    if prec(l) == p:
+        return False, prec(r) >= p, False
+    if prec(r) == p and shortcut_ok:
+        return prec(l) >= p, False, True
+    return prec(l) >= p, prec(r) >= p, False
+
+
+def ends_member(t):
+    """the printer's own test `ends_with_member_name` (over-approximates for binary expressions)"""
+    h = t[0] if not isinstance(t, str) and t and isinstance(t[0], str) else ""
+    if h == ".":
+        return len(t) == 3        # no explicit type arguments
+    if h in ("!", "neg"):
+        return prec(t[1]) < 2 and ends_member(t[1])
+    if h in OPS and len(t) == 3:
+        return ends_member(t[2])
+    if h == "lambda":
+        return ends_member(t[2])
+    return False
+
+
+def ends_field(t):
+    """does the printed form end with a member name?"""
+    h = t[0] if not isinstance(t, str) and t and isinstance(t[0], str) else ""
+    if h == ".":
+        return True
+    if h in ("!", "neg"):
+        return prec(t[1]) < 2 and ends_field(t[1])
+    if h in OPS and len(t) == 3:
+        return not parens(h, t[1], t[2])[1] and ends_field(t[2])
+    if h == "lambda":
+        return ends_field(t[2])
+    return False
+
+
 def bad_nodes(t, out=None):
     """nodes at which the printer drops parentheses the parser needs (python re-statement of the
     side condition, used only for known-finding classification). Returns list of finding ids."""
@@ -88,18 +129,13 @@ def bad_nodes(t, out=None):
             out.append("C08-chain-base")
     elif h in OPS and len(t) == 3:
         l, r = t[1], t[2]
-        p = 4 + PPREC[h]
-        shortcut_ok = (h in ASSOC and not isinstance(r, str) and len(r) == 3 and r[0] == h and prec(r[1]) != p)
-        if prec(l) == p:
-            lpar, rpar, shortcut = False, prec(r) >= p, False
-        elif prec(r) == p and shortcut_ok:
-            lpar, rpar, shortcut = prec(l) >= p, False, True
-        else:
-            lpar, rpar, shortcut = prec(l) >= p, prec(r) >= p, False
+        lpar, rpar, shortcut = parens(h, l, r)
         if not lpar and lvl(l) < PLEVEL[h]:
             out.append("C08-F4")
         if not rpar and lvl(r) <= PLEVEL[h]:
             out.append("C08-F5" if shortcut else "C08-F1")
+        if h == "<" and not lpar and ends_field(l):
+            out.append("C08-F6")
     for c in t[1:] if h else t:
         bad_nodes(c, out)
     return out
@@ -227,7 +263,10 @@ def render_min(t, k=-1):
         my = 5
     elif h in OPS and len(t) == 3:
         j = PLEVEL[h]
-        s = render_min(t[1], j) + " " + h + " " + render_min(t[2], j + 1)
+        left = render_min(t[1], j)
+        if h == "<" and re.search(r"\.\s*[A-Za-z][A-Za-z0-9]*$", left):
+            left = "(" + left + ")"      # `a.b < c` is not a comparison for the parser (C08-F6)
+        s = left + " " + h + " " + render_min(t[2], j + 1)
         my = j
     elif h == ".":
         s, my = render_min(t[1], 6) + "." + t[2], 6
